@@ -78,6 +78,16 @@ func goEnv() []string {
 	return append(env, "GOFLAGS=-mod=mod", "GOPROXY=off", "GOSUMDB=off", "GOTOOLCHAIN=local", "CGO_ENABLED=0")
 }
 
+// Probes: expressions the sort-then-emit sites order by, read from the source (element written `e`).
+type Probes struct {
+	ThrowsDedupKey string    // index expression of `fm[...] = e` in ServiceThrows
+	ThrowsLess     [3]string // left operand, operator, right operand of the sort.Slice comparator in ServiceThrows
+	TypeNameString string    // what (TypeName).String returns
+	FieldsLess     [3]string // comparator of fastgo getSortedFields
+}
+
+var probes Probes
+
 func inventory(repo string) ([]Site, []string, [][2]string, error) {
 	cmd := exec.Command("go", append([]string{"list", "-deps", "-json=ImportPath,Dir,GoFiles,ImportMap,Standard,Module"}, roots...)...)
 	cmd.Dir = repo
@@ -151,6 +161,10 @@ func inventory(repo string) ([]Site, []string, [][2]string, error) {
 				if t, ok := stdTable(af, info); ok {
 					std, stdFound = t, true
 				}
+				probeGolang(af)
+			}
+			if rel == "generator/fastgo" {
+				probeFastgo(af)
 			}
 		}
 	}
@@ -169,6 +183,112 @@ func inventory(repo string) ([]Site, []string, [][2]string, error) {
 	})
 	sort.Strings(pkgsOfModule)
 	return sites, pkgsOfModule, std, nil
+}
+
+// lessOf reads `sort.Slice(xs, func(i, j int) bool { return L op R })` and renames xs[i], xs[j] to e.
+func lessOf(call *ast.CallExpr) [3]string {
+	bad := [3]string{"?", "?", "?"}
+	if len(call.Args) != 2 {
+		return bad
+	}
+	fl, ok := call.Args[1].(*ast.FuncLit)
+	if !ok || len(fl.Body.List) != 1 || fl.Type.Params == nil {
+		return bad
+	}
+	ret, ok := fl.Body.List[0].(*ast.ReturnStmt)
+	if !ok || len(ret.Results) != 1 {
+		return bad
+	}
+	be, ok := ret.Results[0].(*ast.BinaryExpr)
+	if !ok {
+		return [3]string{types.ExprString(ret.Results[0]), "?", "?"}
+	}
+	var ps []string
+	for _, f := range fl.Type.Params.List {
+		for _, n := range f.Names {
+			ps = append(ps, n.Name)
+		}
+	}
+	xs := types.ExprString(call.Args[0])
+	ren := func(e ast.Expr, p string) string {
+		return strings.ReplaceAll(types.ExprString(e), xs+"["+p+"]", "e")
+	}
+	if len(ps) != 2 {
+		return bad
+	}
+	return [3]string{ren(be.X, ps[0]), be.Op.String(), ren(be.Y, ps[1])}
+}
+
+func isSortSlice(call *ast.CallExpr) bool {
+	sel, ok := call.Fun.(*ast.SelectorExpr)
+	if !ok {
+		return false
+	}
+	id, ok := sel.X.(*ast.Ident)
+	return ok && id.Name == "sort" && (sel.Sel.Name == "Slice" || sel.Sel.Name == "SliceStable")
+}
+
+func probeGolang(af *ast.File) {
+	for _, d := range af.Decls {
+		fd, ok := d.(*ast.FuncDecl)
+		if !ok || fd.Body == nil {
+			continue
+		}
+		switch recvName(fd) {
+		case "(TypeName).String":
+			if len(fd.Body.List) == 1 {
+				if r, ok := fd.Body.List[0].(*ast.ReturnStmt); ok && len(r.Results) == 1 {
+					probes.TypeNameString = types.ExprString(r.Results[0])
+				}
+			}
+		case "(*CodeUtils).BuildFuncMap":
+			ast.Inspect(fd.Body, func(n ast.Node) bool {
+				kv, ok := n.(*ast.KeyValueExpr)
+				if !ok {
+					return true
+				}
+				k, ok := kv.Key.(*ast.BasicLit)
+				if !ok || k.Value != `"ServiceThrows"` {
+					return true
+				}
+				probes.ThrowsDedupKey, probes.ThrowsLess = "?", [3]string{"?", "?", "?"}
+				ast.Inspect(kv.Value, func(m ast.Node) bool {
+					switch x := m.(type) {
+					case *ast.AssignStmt:
+						if len(x.Lhs) == 1 && len(x.Rhs) == 1 {
+							if ix, ok := x.Lhs[0].(*ast.IndexExpr); ok {
+								if id, ok := ix.X.(*ast.Ident); ok && id.Name == "fm" {
+									probes.ThrowsDedupKey = strings.ReplaceAll(types.ExprString(ix.Index), types.ExprString(x.Rhs[0]), "e")
+								}
+							}
+						}
+					case *ast.CallExpr:
+						if isSortSlice(x) {
+							probes.ThrowsLess = lessOf(x)
+						}
+					}
+					return true
+				})
+				return false
+			})
+		}
+	}
+}
+
+func probeFastgo(af *ast.File) {
+	for _, d := range af.Decls {
+		fd, ok := d.(*ast.FuncDecl)
+		if !ok || fd.Body == nil || recvName(fd) != "getSortedFields" {
+			continue
+		}
+		probes.FieldsLess = [3]string{"?", "?", "?"}
+		ast.Inspect(fd.Body, func(n ast.Node) bool {
+			if c, ok := n.(*ast.CallExpr); ok && isSortSlice(c) {
+				probes.FieldsLess = lessOf(c)
+			}
+			return true
+		})
+	}
 }
 
 // stdTable reads the composite literal assigned to `std` in (*importManager).init.
@@ -370,6 +490,15 @@ func renderLean(sites []Site, pkgs []string, std [][2]string) string {
 		}
 		fmt.Fprintf(&sb, "  (%s, %s)%s\n", leanStr(kv[0]), leanStr(kv[1]), c)
 	}
-	sb.WriteString("]\n\nend Generated.C07\n")
+	sb.WriteString("]\n\n")
+	sb.WriteString("/-- ServiceThrows (BuildFuncMap): the key its map `fm` deduplicates the exceptions by, and the two operands\n")
+	sb.WriteString("and the operator of the comparator its `sort.Slice` uses, with the element written `e`. -/\n")
+	fmt.Fprintf(&sb, "def serviceThrowsDedupKey : String := %s\n", leanStr(probes.ThrowsDedupKey))
+	fmt.Fprintf(&sb, "def serviceThrowsLess : String × String × String := (%s, %s, %s)\n", leanStr(probes.ThrowsLess[0]), leanStr(probes.ThrowsLess[1]), leanStr(probes.ThrowsLess[2]))
+	sb.WriteString("/-- what `(TypeName).String` returns -/\n")
+	fmt.Fprintf(&sb, "def typeNameString : String := %s\n", leanStr(probes.TypeNameString))
+	sb.WriteString("/-- fastgo getSortedFields: the comparator of its `sort.Slice` -/\n")
+	fmt.Fprintf(&sb, "def sortedFieldsLess : String × String × String := (%s, %s, %s)\n", leanStr(probes.FieldsLess[0]), leanStr(probes.FieldsLess[1]), leanStr(probes.FieldsLess[2]))
+	sb.WriteString("\nend Generated.C07\n")
 	return sb.String()
 }
